@@ -242,7 +242,7 @@ struct Gen {
   void g_collect() { if (forced && ch.chance(1, 3)) { out.push_back(Op("reduce").u("target", ch.chance(1, 2) ? 0 : (size_t)ch.range(1, 3) * 32*MiB)); return; }
     if (ch.chance(1, 2)) out.push_back(Op("collect").u("force", ch.chance(1, 2))); else { std::vector<int> hs; for (int i = 1; i < NHEAPS; i++) if (heaps[i].alive) hs.push_back(i); out.push_back(Op("hcollect").u("h", (uint64_t)ch.of(hs)).u("force", ch.chance(1, 2))); } }
   bool census_ok = false; bool subprocs = false; bool forced = false;
-  void g_visit() { if (census_ok && ch.chance(1, 3)) { Op cen("census"); if (pf.stop_visits && ch.chance(1, 3)) cen.u("astop", ch.range(1, 1 + live_list.size())); out.push_back(cen); return; } std::vector<int> hs; for (int i = 1; i < NHEAPS; i++) if (heaps[i].alive) hs.push_back(i); Op op("visit"); op.u("h", (uint64_t)ch.of(hs)); if (pf.stop_visits && ch.chance(1, 3)) op.u("stop", ch.range(1, 1 + 2 * live_list.size())); out.push_back(op); }
+  void g_visit() { if (census_ok && ch.chance(1, 3)) { Op cen("census"); if (pf.stop_visits && ch.chance(1, 3)) { if (ch.chance(1, 3)) cen.u("astop", 1).u("astoparea", ch.range(1, 6)); else cen.u("astop", ch.range(1, 1 + live_list.size())); } out.push_back(cen); return; } std::vector<int> hs; for (int i = 1; i < NHEAPS; i++) if (heaps[i].alive) hs.push_back(i); Op op("visit"); op.u("h", (uint64_t)ch.of(hs)); if (pf.stop_visits && ch.chance(1, 3)) { if (ch.chance(1, 4)) op.u("stoparea", ch.range(1, 8)); else op.u("stop", ch.range(1, 1 + 2 * live_list.size())); } out.push_back(op); }
   void g_arena() { for (int i = 0; i < NARENAS; i++) if (!arena_valid[i]) { bool ex = ch.chance(1, 2); out.push_back(Op("arena").u("i", (uint64_t)i).u("size", (size_t)ch.range(2, 6) * 32*MiB).u("commit", ch.chance(1, 4)).u("excl", ex)); arena_valid[i] = true; arena_excl[i] = ex; return; } }
 
   size_t edge_value(int kind) {
